@@ -56,7 +56,9 @@ def boundary_strings():
         for n in (edge - 1, edge, edge + 1, U64 - 1, U64, U64 + 1, 10 ** 30):
             out.append("%d%s" % (n, u))
     out += ["18446744073709551615s1s", "9223372036854775807s9223372036854775807s2s", "0s", "00000s", "0w0d0h0m0s", "1h30m", "1w2d3h4m5s",
-            "5s4m3h2d1w", "1s1s1s", "01h", "1H", "1 h", " 1h", "1h ", "h", "1", "", "-1s", "+1s", "1.5h", "1e3s", "١s", "1h\n", "99999w99999w"]
+            "5s4m3h2d1w", "1s1s1s", "01h", "1H", "1 h", " 1h", "1h ", "h", "1", "", "-1s", "+1s", "1.5h", "1e3s", "١s", "1h\n", "99999w99999w",
+            # letters of more than one byte, wherever they may stand (a pasted no-break space, a micro sign, full-width digits)
+            "30\u00a0d", "5µs", "5é", "7日", "1d12ℎ", "é5d", "1dé", "5d\u00a0", "５d", "5ｄ", "1h😀", "😀", "1\u0301s"]
     return out
 
 
@@ -315,7 +317,7 @@ def run(ctx):
         raise ToolError("Period model sanity: a parser that clamps an overflowing period is not caught")
     strings = ["".join(cs) for cs in tlc.replays(r["raw"])]
     rnd = []
-    alpha = "0123456789smhdwx "
+    alpha = "0123456789smhdwx " + "0123456789smhdw" + "µé日\u00a0"
     for _ in range(3000 if ctx.tier == "thorough" else 400):
         rnd.append("".join(rng.choice(alpha) for _ in range(rng.randint(1, 9))))
     lines = period_points(strings + boundary_strings() + rnd)
